@@ -38,7 +38,7 @@ const (
 )
 
 func checkC09(c *core.Ctx) []core.Floor {
-	c.Rule = "inputs to the session's tokenise+parse path: (a) every token sequence up to a length bound over the full vocabulary (all keywords, operators, punctuation, identifier, quoted identifier, integer, over-long integer, float, string, raw string, lone quotes) plus longer sequences over a reduced vocabulary; (b) every byte prefix and every token prefix of generated valid statements; (c) token deletions / duplications / swaps of valid statements; (d) quote pathology; (e) numeric pathology in every integer position; (f) random bytes incl. NUL and invalid UTF-8; (g) deep nesting (10^5 chained OR/AND terms, long lists). Monitors: recover() (panic), logical step budgets on the scanner (64 x (len+16) characters read) and on the token list (4096 x (len+16) reads) enforced from hooks, independent of machine load, allocation bound per batch; a dead driver names its input. Distinct = input text; non-trivial = the input is not a valid statement (the error paths are what is being exercised)."
+	c.Rule = "inputs to the session's tokenise+parse path: (a) every token sequence up to a length bound over the full vocabulary (all keywords, operators, punctuation, identifier, quoted identifier, integer, over-long integer, float, string, raw string, lone quotes) plus longer sequences over a reduced vocabulary; (b) every byte prefix and every token prefix of generated valid statements; (c) token deletions / duplications / swaps of valid statements; (d) quote pathology; (e) numeric pathology in every integer position; (e2) 35 awkward tokens (digit separators, hex/binary/float forms, quoted and unterminated strings, two-character operators, multi-byte and invalid UTF-8, comment openers) at every alignment around the multiples of the scanner's 1024-byte buffer, followed by more text and at the end of the input; (f) random bytes incl. NUL and invalid UTF-8; (g) deep nesting (10^5 chained OR/AND terms, long lists). Monitors: recover() (panic), logical step budgets on the scanner (64 x (len+16) characters read) and on the token list (4096 x (len+16) reads) enforced from hooks, independent of machine load, allocation bound per batch; a dead driver names its input. Distinct = input text; non-trivial = the input is not a valid statement (the error paths are what is being exercised)."
 	c.Assume = []string{"step budgets are orders of magnitude above what the parser uses on valid input (the observed maximum ratio is reported)"}
 	drv := mustDriver(c, false)
 	quick := core.Quick(c)
@@ -209,6 +209,28 @@ func checkC09(c *core.Ctx) []core.Floor {
 		num = append(num, "SELECT * FROM t LIMIT "+b, "SELECT * FROM t OFFSET "+b, "SELECT * FROM t LIMIT 1 OFFSET "+b, "CREATE TABLE t (a varchar("+b+"))", "INSERT INTO t VALUES ("+b+")", "INSERT INTO t VALUES (1, "+b+"), (2)", "SELECT * FROM t WHERE a = "+b, "SELECT * FROM t WHERE "+b+" < a", "UPDATE t SET a = "+b, "DELETE FROM t WHERE a >= "+b, "SELECT "+b, "SELECT "+b+" = "+b, b)
 	}
 	add("numerics", num)
+	// (e2) every awkward token at every alignment around the multiples of the
+	// scanner's 1024-byte read buffer: the token starts before, on and after
+	// the boundary, with something following it and at the end of the input
+	var bnd []string
+	hazards := []string{"1_000", "0x_ff", "1_0.5", "12345678901234567890", "0x7f", "1e5", "1.5e+3", ".5", "1.", "0b101", "0o17", "'quoted text'", `"quoted ident"`, "`raw`", "'unterminated", `"unterminated`, "<=", ">=", "!=", "<>", "identifier_with_digits_123", "café", "日本語", "tbl٣", "€", "\xe2\x82", "\xff", "/* c */", "// c", "-- c", "'it''s'", "'a\\'b'", "\x00", "TRUE", "9223372036854775808"}
+	bounds := []int{1024, 2048}
+	if !quick {
+		bounds = []int{1024, 2048, 3072, 4096, 8192, 65536}
+	}
+	for _, hz := range hazards {
+		for _, bd := range bounds {
+			for off := bd - len(hz) - 2; off <= bd+2; off++ {
+				head := "SELECT a FROM t WHERE a = 1 AND b ="
+				if off <= len(head) {
+					continue
+				}
+				pad := strings.Repeat(" ", off-len(head))
+				bnd = append(bnd, head+pad+hz+" OR c = 2", head+pad+hz)
+			}
+		}
+	}
+	add("buffer_boundary", bnd)
 	// (f) random bytes
 	var rnd []string
 	nr := 3000
@@ -259,7 +281,7 @@ func checkC09(c *core.Ctx) []core.Floor {
 	c.Sample(6, map[string]interface{}{"family": "prefixes", "example": pref[len(pref)/2]})
 	c.Sample(6, map[string]interface{}{"family": "mutations", "example": mut[len(mut)/2]})
 	fl := []core.Floor{{Key: "inputs", Min: 50000}}
-	for _, f := range []string{"token_sequences", "valid_statements", "prefixes", "mutations", "clause_sequences", "quotes", "numerics", "random_bytes", "deep"} {
+	for _, f := range []string{"token_sequences", "valid_statements", "prefixes", "mutations", "clause_sequences", "quotes", "numerics", "buffer_boundary", "random_bytes", "deep"} {
 		fl = append(fl, core.Floor{Key: "family_" + f, Min: 1})
 	}
 	fl = append(fl, core.Floor{Key: "outcome_statement", Min: 1000}, core.Floor{Key: "outcome_error", Min: 1000})
